@@ -136,6 +136,7 @@ func (ra *RestAgent) receiveBundleMessage(msg BundleMessage) {
 		} else {
 			bundles = append(val.([]bpv7.Bundle), msg.Bundle)
 		}
+		verifPoint("deliver:loaded", uuid)
 
 		ra.mailbox.Store(uuid, bundles)
 
@@ -219,6 +220,7 @@ func (ra *RestAgent) handleFetch(w http.ResponseWriter, r *http.Request) {
 	} else if val, ok := ra.mailbox.Load(fetchRequest.UUID); ok {
 		log.WithField("uuid", fetchRequest.UUID).Info("REST client fetches bundles")
 		fetchResponse.Bundles = val.([]bpv7.Bundle)
+		verifPoint("fetch:loaded", fetchRequest.UUID)
 
 		ra.mailbox.Delete(fetchRequest.UUID)
 	} else if !ok {
